@@ -504,22 +504,31 @@ Qed.
 Definition executing (s : st) (c : cid) (k : key) : Prop :=
   (exists l p b g, phase s c = CInWrapped k l p b g) \/ (exists p b, phase s c = CBypass k p b).
 
-Theorem lru_single_flight cf ops c1 c2 k :
-  maxsize_pos cf -> no_inflight_eviction cf ops -> no_waited_eviction cf ops -> no_other_loop cf ops ->
-  executing (run cf ops) c1 k -> executing (run cf ops) c2 k -> c1 = c2.
+Theorem lru_single_flight cf ops c1 c2 k l1 p1 b1 g1 l2 p2 b2 g2 :
+  no_inflight_eviction cf ops -> no_waited_eviction cf ops -> no_other_loop cf ops ->
+  phase (run cf ops) c1 = CInWrapped k l1 p1 b1 g1 -> phase (run cf ops) c2 = CInWrapped k l2 p2 b2 g2 -> c1 = c2.
 Proof.
-  intros Hz Hf Hw Hph E1 E2. pose proof (reachable_inv1 cf ops) as I. set (s := run cf ops) in *.
-  assert (Hnb : forall c p b, phase s c <> CBypass k p b).
-  { intros c p b H. pose proof (I_byp _ _ I c) as Hb. rewrite H in Hb. unfold maxsize_pos in Hz.
-    rewrite (Hb eq_refl) in Hz. discriminate. }
-  destruct E1 as [(l1 & p1 & b1 & g1 & H1)|(p1 & b1 & H1)]; [|exfalso; eapply Hnb; eauto].
-  destruct E2 as [(l2 & p2 & b2 & g2 & H2)|(p2 & b2 & H2)]; [|exfalso; eapply Hnb; eauto].
+  intros Hf Hw Hph H1 H2. pose proof (reachable_inv1 cf ops) as I. set (s := run cf ops) in *.
   assert (g1 = cur s) by (apply (I_gen _ _ I Hph c1); now rewrite H1).
   assert (g2 = cur s) by (apply (I_gen _ _ I Hph c2); now rewrite H2). subst g1 g2.
   pose proof (I_A _ _ I Hf Hw _ _ _ _ _ _ H1) as A1. pose proof (I_A _ _ I Hf Hw _ _ _ _ _ _ H2) as A2.
   assert (l1 = l2) by congruence. subst l2.
   eapply held_unique; [apply (L_inv _ _ _ _ _ (I_lp _ _ I) l1)| |];
     eapply (L_run _ _ _ _ _ (I_lp _ _ I)); eauto.
+Qed.
+
+(* the two ways of executing the wrapped function exclude each other: through the cache (CInWrapped, and the
+   lock-wait / entry phases) only if maxsize <> 0, through the lock-free path (CBypass) only if maxsize = 0.  For
+   maxsize = 0 there is no single flight at all (finding F32, lru_refuted_maxsize0_double_flight). *)
+Theorem lru_paths_exclusive cf ops c :
+  (forall k p b, phase (run cf ops) c = CBypass k p b -> is_zero_max cf = true) /\
+  (forall k l p b g, phase (run cf ops) c = CInWrapped k l p b g -> is_zero_max cf = false) /\
+  (forall k l t0 g, phase (run cf ops) c = CLockWait k l t0 g -> is_zero_max cf = false).
+Proof.
+  pose proof (reachable_inv1 cf ops) as I. refine (conj _ (conj _ _)).
+  - intros k p b H. apply (I_byp _ _ I c). now rewrite H.
+  - intros k l p b g H. apply (I_nobyp _ _ I c k l). now rewrite H.
+  - intros k l t0 g H. apply (I_nobyp _ _ I c k l). now rewrite H.
 Qed.
 
 (* later callers reuse the first result: a caller that waited for the entry's lock and finds the value stored
